@@ -52,6 +52,9 @@ func runCase(c ringlab.ChurnCfg, rep *batch.Report) batch.CaseResult {
 		}
 		return out
 	}
+	for _, f := range ringlab.CheckResidue(res) {
+		out.Violations = append(out.Violations, batch.Viol{Key: f.Key, What: f.What, Witness: f.Witness})
+	}
 	// the cause behind misplaced data, seen directly: a predecessor pointer that moved away from a live node
 	for _, f := range ringlab.CheckPredPointer(res) {
 		out.Violations = append(out.Violations, batch.Viol{Key: f.Key, What: f.What, Witness: f.Witness})
